@@ -353,6 +353,30 @@ def response_bytes(world, rid_name, kind):
     raise ValueError(kind)
 
 
+def requested_id(world, rid_name, how):
+    """The id asked for: the transaction's txid, or (how != "") another digest of the bytes the honest server
+    returns for it — a caller may ask for anything, the fetcher must never hand back a Tx with a different id()."""
+    import hashlib
+
+    t = world[rid_name]
+    full, stripped = txref.ser_tx(t), txref.ser_stripped(t)
+    d = lambda b: hashlib.sha256(hashlib.sha256(b).digest()).digest()
+    if how == "":
+        return txref.txid(t)
+    return {
+        "wtxid": d(full)[::-1].hex(),
+        "wtxid-unreversed": d(full).hex(),
+        "txid-unreversed": d(stripped).hex(),
+        "sha256-once": hashlib.sha256(stripped).digest()[::-1].hex(),
+        "sha256-once-full": hashlib.sha256(full).digest()[::-1].hex(),
+        "hash-of-hex-text": d(full.hex().encode())[::-1].hex(),
+        "upper": txref.txid(t).upper(),
+    }[how]
+
+
+RID_VARIANTS = ["wtxid", "wtxid-unreversed", "txid-unreversed", "sha256-once", "sha256-once-full", "hash-of-hex-text", "upper"]
+
+
 class _Resp:
     def __init__(self, b):
         self.b = b
@@ -376,14 +400,15 @@ def do_fetch_history(world, hist):
     btx.urlopen = fake_urlopen
     try:
         for rid_name, kind, fresh in hist:
-            rid = txref.txid(world[rid_name])
+            rid_name, _, how = rid_name.partition("@")
+            rid = requested_id(world, rid_name, how)
             cur["resp"] = response_bytes(world, rid_name, kind)
             r = attempt(btx.TxFetcher.fetch, rid, "mainnet", fresh)
             if isinstance(r, Rejected):
                 obs.append(("raised", r.how))
             else:
                 got = attempt(r.id)
-                obs.append(("returned", got, rid))
+                obs.append(("returned", got, rid.lower()))
     finally:
         btx.urlopen = old
         btx.TxFetcher.cache = {}
@@ -400,6 +425,11 @@ def gen_fetch(tier, seed):
         kinds += [f"mut:{p}:{x}" for p in range(n) for x in xs]
         for k in kinds:
             cases.append({"hist": [[rid_name, k, False]]})
+        # the caller asks for some other digest of the very bytes the server answers with
+        for how in RID_VARIANTS:
+            for k in ("honest", "honest-nl", "stripped", "altwit"):
+                cases.append({"hist": [[f"{rid_name}@{how}", k, False]]})
+                cases.append({"hist": [[rid_name, "honest", False], [f"{rid_name}@{how}", k, False]]})
     # histories of depth 2..3 over a small alphabet, on one shared cache
     small = [(r, k, f) for r in ("legacy", "segwit", "nonmin") for k in ("honest", "other", "mut:5:1", "altwit") for f in (False, True)]
     depth = 3
@@ -419,7 +449,7 @@ def run_fetch(case):
     obs = do_fetch_history(world, hist)
     res.states += len(hist)
     res.transitions += len(hist)
-    lying = any(k not in ("honest", "honest-nl", "honest-upper") for _, k, _ in hist)
+    lying = any(k not in ("honest", "honest-nl", "honest-upper") or "@" in r for r, k, _ in hist)
     bad = None
     for step, o in enumerate(obs):
         if o[0] == "returned" and o[1] != o[2]:
@@ -428,8 +458,9 @@ def run_fetch(case):
     if bad:
         step, o = bad
         rid_name, kind, fresh = hist[step]
+        rid_name, _, how = rid_name.partition("@")
         honest = response_bytes(world, rid_name, kind).strip().lower() == response_bytes(world, rid_name, "honest")
-        cls = f"{rid_name}-honest" if honest else f"{rid_name}/{kind.split(':')[0]}"
+        cls = f"{rid_name}/asked-for-{how}" if how and how != "upper" else f"{rid_name}-honest" if honest else f"{rid_name}/{kind.split(':')[0]}"
         res.violation(
             f"C04/fetch/{cls}",
             {"engine": "fetch", "case": case},
@@ -441,7 +472,7 @@ def run_fetch(case):
         accepted = sum(1 for o in obs if o[0] == "returned")
         res.ok(f"fetch-ok(accepted={accepted>0})", nontrivial=repr(hist) if lying else None, sample={"hist": hist, "obs": obs} if len(hist) == 2 else None)
         # completeness: an honest canonical answer on a fresh cache must be accepted
-        if len(hist) == 1 and hist[0][1] in ("honest", "honest-nl") and not hist[0][0].startswith("nonmin") and obs[0][0] != "returned":
+        if len(hist) == 1 and hist[0][1] in ("honest", "honest-nl") and not hist[0][0].startswith("nonmin") and "@" not in hist[0][0] and obs[0][0] != "returned":
             res.violation(f"C04/fetch/honest-rejected/{hist[0][0]}", {"engine": "fetch", "case": case}, obs, "returned", "honest answer rejected")
     return res
 
